@@ -6,6 +6,6 @@ CONSTANTS
   Retry = 3
   Fix = {"exists", "nopeer_fails"}
   Emit = FALSE
-INVARIANTS TypeOK FinalGood CountedPresent Converges GateSound
+INVARIANTS TypeOK FinalGood CountedPresent Converges GateSound FreshOffsetPerPeer
 VIEW view
 CHECK_DEADLOCK FALSE
